@@ -1461,3 +1461,49 @@ func TestBisyncPipelineWorkerCountAutoUsesClusterPrimaryCount(t *testing.T) {
 		t.Fatalf("expected auto bisync pipeline parallel to use cluster primary count 3, got %d", got)
 	}
 }
+
+// The sender takes a closed unit channel for the clean end of the stream and
+// returns without an error; sendAofBisync then closes the wait closer with that
+// nil. So by the time the channel is seen closed, the parser's error (refused
+// cross-slot transaction, corrupted stream, EOF) must already be recorded,
+// otherwise the nil can win and the refusal is reported as a clean end.
+func TestParseAofReplayUnitsRecordsItsErrorBeforeClosingTheUnitChannel(t *testing.T) {
+	ro := NewRedisOutput(RedisOutputConfig{
+		InputName:       "127.0.0.1:6379",
+		BatchCmdCount:   4,
+		BatchBufferSize: 1024,
+		BisyncEnabled:   true,
+		Redis:           config.RedisConfig{Type: config.RedisTypeCluster},
+	})
+	stream := bytes.NewBuffer(nil)
+	writeCommand := func(args ...string) {
+		arr := redisclient.NewArray()
+		for _, arg := range args {
+			arr.AppendBulkBytes([]byte(arg))
+		}
+		stream.Write(redisclient.MustEncodeToBytes(arr))
+	}
+	writeCommand("SET", "a{t1}", "v")
+	writeCommand("MULTI")
+	writeCommand("SET", "a{t1}", "v")
+	writeCommand("SET", "b{t2}", "v") // another slot: the transaction is refused
+	writeCommand("EXEC")
+
+	wait := usync.NewWaitCloser(nil)
+	unitBuf := make(chan *bisyncReplayUnit, 8)
+	ret := make(chan error, 1)
+	go func() {
+		ret <- ro.parseAofReplayUnits(wait, bufio.NewReader(bytes.NewReader(stream.Bytes())), 0, unitBuf)
+	}()
+	for range unitBuf {
+	}
+	// the channel is closed: what a sender reads now decides what sendAofBisync returns
+	seen := wait.Error()
+	err := <-ret
+	if err == nil || errors.Is(err, io.EOF) {
+		t.Fatalf("expected the parser to refuse the cross-slot transaction, got %v", err)
+	}
+	if seen == nil {
+		t.Fatalf("unit channel closed while the wait closer still had no error; the parser returned %v", err)
+	}
+}
